@@ -120,11 +120,6 @@ theorem hasWord_append (w a b : Text) (h : endsNonWord a = true ∨ startsNonWor
 
 /-! ## the emitted block, per backend -/
 
-/-- the property-level view of a model specification -/
-def declOf (c : CollSpec) : Decl :=
-  { name := c.name, includes := c.includes, container := c.container, element := c.element,
-    elemPtr := c.element.isSome && c.depthElem != 0, libraries := c.libraries }
-
 theorem paramName_word : paramName.all isWordChar = true := by decide
 theorem paramName_ne : paramName ≠ [] := by decide
 
@@ -883,5 +878,537 @@ theorem lookup_append (l₁ l₂ : List CollSpec) (n : Text) :
   | cons c l ih =>
     simp only [List.cons_append, lookup, ih]
     cases lookup l₂ n <;> rfl
+
+/-! ## the two passes -/
+
+def tokStep (cd : CoderInfo) : Nat := if cd.tokenPerUse then 1 else 0
+
+/-- the rewritten calls on the success path of `findAll` -/
+def cvsOf (cd : CoderInfo) (table : List CollSpec) : List Use → Nat → List (CodeValue × Nat)
+  | [], _ => []
+  | u :: us, n =>
+    match lookup table u.name with
+    | some c => (mkCV cd c (bankOf u.args) n, u.skip) :: cvsOf cd table us (n + tokStep cd)
+    | none => cvsOf cd table us n
+
+def UseOk (table : List CollSpec) (u : Use) : Prop := CallOk u.args ∧ (lookup table u.name).isSome = true
+
+theorem findAll_ok {cd : CoderInfo} {table : List CollSpec} {uses : List Use} {n : Nat} {r}
+    (h : findAll cd table uses n = .ok r) :
+    (∀ u ∈ uses, UseOk table u) ∧ r.1 = cvsOf cd table uses n := by
+  induction uses generalizing n r with
+  | nil => simp [findAll] at h; subst h; simp [cvsOf]
+  | cons u us ih =>
+    unfold findAll at h
+    cases hl : lookup table u.name with
+    | none => simp [hl] at h
+    | some c =>
+      cases hg : getCollection cd c u.args n with
+      | error e => simp [hl, hg] at h
+      | ok p =>
+        obtain ⟨cv, n'⟩ := p
+        cases hr : findAll cd table us n' with
+        | error e => simp [hl, hg, hr] at h
+        | ok q =>
+          obtain ⟨rest, n''⟩ := q
+          simp [hl, hg, hr] at h
+          subst h
+          obtain ⟨s, hs⟩ := (getCollection_ok_iff cd c u.args n).1 ⟨_, hg⟩
+          rw [hs, getCollection_str] at hg
+          simp only [Except.ok.injEq, Prod.mk.injEq] at hg
+          obtain ⟨i1, i2⟩ := ih hr
+          refine ⟨?_, ?_⟩
+          · intro x hx
+            rcases List.mem_cons.1 hx with rfl | hx
+            · exact ⟨⟨s, hs⟩, by simp [hl]⟩
+            · exact i1 x hx
+          · simp only [cvsOf, hl, hs, bankOf]
+            rw [← hg.1]
+            simp only at i2
+            rw [i2, ← hg.2]
+            congr 2
+            unfold tokStep; split <;> rfl
+
+theorem findAll_of {cd : CoderInfo} {table : List CollSpec} {uses : List Use} (n : Nat)
+    (h : ∀ u ∈ uses, UseOk table u) : ∃ r, findAll cd table uses n = .ok r := by
+  induction uses generalizing n with
+  | nil => exact ⟨_, rfl⟩
+  | cons u us ih =>
+    obtain ⟨⟨s, hs⟩, hl⟩ := h u (by simp)
+    cases hl' : lookup table u.name with
+    | none => simp [hl'] at hl
+    | some c =>
+      obtain ⟨r, hr⟩ := ih (if cd.tokenPerUse then n + 1 else n) (fun x hx => h x (by simp [hx]))
+      exact ⟨((mkCV cd c s n, u.skip) :: r.1, r.2), by simp [findAll, hl', hs, getCollection_str, hr]⟩
+
+
+/-! ## include / library lists -/
+
+theorem dedup_step (w out : List Text) (x : Text) (h : DedupSpec w out) : DedupSpec (w ++ [x]) (addUnique out x) := by
+  obtain ⟨h1, h2, h3⟩ := h
+  have hidx : ∀ a ∈ out, (w ++ [x]).idxOf a = w.idxOf a := by
+    intro a ha
+    rw [List.idxOf_append, if_pos (h1 a ha)]
+  have hmap : out.map (fun a => (w ++ [x]).idxOf a) = out.map (fun a => w.idxOf a) :=
+    List.map_congr_left hidx
+  unfold addUnique
+  by_cases hx : x ∈ out
+  · simp only [hx, if_true]
+    refine ⟨fun a ha => List.mem_append_left _ (h1 a ha), ?_, by rw [hmap]; exact h3⟩
+    intro a ha
+    rcases List.mem_append.1 ha with ha | ha
+    · exact h2 a ha
+    · simp only [List.mem_singleton] at ha; subst ha; exact hx
+  · simp only [hx, if_false]
+    have hxw : x ∉ w := fun hw => hx (h2 x hw)
+    refine ⟨?_, ?_, ?_⟩
+    · intro a ha
+      rcases List.mem_append.1 ha with ha | ha
+      · exact List.mem_append_left _ (h1 a ha)
+      · exact List.mem_append_right _ ha
+    · intro a ha
+      rcases List.mem_append.1 ha with ha | ha
+      · exact List.mem_append_left _ (h2 a ha)
+      · exact List.mem_append_right _ ha
+    · rw [List.map_append, hmap, List.pairwise_append]
+      refine ⟨h3, by simp, ?_⟩
+      intro a ha b hb
+      simp only [List.map_cons, List.map_nil, List.mem_singleton] at hb
+      subst hb
+      obtain ⟨y, hy, rfl⟩ := List.mem_map.1 ha
+      rw [List.idxOf_append, if_neg hxw]
+      have := List.idxOf_lt_length_of_mem (h1 y hy)
+      simp only [List.idxOf_cons_self]
+      omega
+
+theorem addAll_dedup (xs : List Text) : ∀ (pre acc : List Text), DedupSpec pre acc → DedupSpec (pre ++ xs) (addAll acc xs) := by
+  induction xs with
+  | nil => intro pre acc h; simpa [addAll] using h
+  | cons x xs ih =>
+    intro pre acc h
+    have := ih (pre ++ [x]) (addUnique acc x) (dedup_step pre acc x h)
+    simpa [addAll, List.append_assoc] using this
+
+theorem addAll_nil_dedup (xs : List Text) : DedupSpec xs (addAll [] xs) := by
+  have := addAll_dedup xs [] [] ⟨by simp, by simp, by simp⟩
+  simpa using this
+
+theorem addAll_append (l a b : List Text) : addAll l (a ++ b) = addAll (addAll l a) b := by
+  simp [addAll, List.foldl_append]
+
+/-! ## `emitAll` in closed form -/
+
+theorem emitAll_includes (cvs : List (CodeValue × Nat)) : ∀ st : GenState,
+    (emitAll cvs st).2.includes = addAll st.includes (cvs.flatMap (·.1.spec.includes)) ∧
+    (emitAll cvs st).2.libs = addAll st.libs (cvs.flatMap (·.1.spec.libraries)) := by
+  induction cvs with
+  | nil => intro st; simp [emitAll, addAll]
+  | cons p cvs ih =>
+    intro st
+    obtain ⟨cv, skip⟩ := p
+    simp only [emitAll, List.flatMap_cons, addAll_append]
+    exact ih _
+
+
+/-! ## generated names are distinct -/
+
+theorem digits_injective {a b : Nat} (h : digits a = digits b) : a = b := by
+  have := congrArg (fun l => Nat.ofDigitChars 10 l 0) h
+  simpa [digits, Nat.ofDigitChars_ten_toDigits] using this
+
+theorem uniqueName_inj_same (p : Text) {a b : Nat} (h : uniqueName p a = uniqueName p b) : a = b :=
+  digits_injective (List.append_cancel_left h)
+
+def digitSuffix (l : Text) : Text := (l.reverse.takeWhile Char.isDigit).reverse
+
+theorem digits_all_digit (n : Nat) : ∀ c ∈ digits n, c.isDigit = true :=
+  fun _ hc => Nat.isDigit_of_mem_toDigits (by omega) (by omega) hc
+
+theorem digitSuffix_uniqueName (p : Text) (n : Nat) (hp : endsInDigit p = false) :
+    digitSuffix (uniqueName p n) = digits n := by
+  unfold digitSuffix uniqueName
+  rw [List.reverse_append, List.takeWhile_append_of_pos (by
+    intro c hc; exact digits_all_digit n c (List.mem_reverse.1 hc))]
+  have : p.reverse.takeWhile Char.isDigit = [] := by
+    cases hr : p.reverse with
+    | nil => rfl
+    | cons c t =>
+      have hl : p.getLast? = some c := by
+        rw [List.getLast?_eq_head?_reverse, hr]; rfl
+      simp only [endsInDigit, hl] at hp
+      simp [List.takeWhile, hp]
+  rw [this, List.append_nil, List.reverse_reverse]
+
+theorem uniqueName_inj {p q : Text} {a b : Nat} (hp : endsInDigit p = false) (hq : endsInDigit q = false)
+    (h : uniqueName p a = uniqueName q b) : a = b := by
+  have := congrArg digitSuffix h
+  rw [digitSuffix_uniqueName p a hp, digitSuffix_uniqueName q b hq] at this
+  exact digits_injective this
+
+theorem tokenName_injective {a b : Nat} (h : tokenName a = tokenName b) : a = b := uniqueName_inj_same _ h
+
+
+/-! ## one call, any backend -/
+
+theorem memberOp_eq (n : Nat) : memberOp n = if (n != 0) = true then t!"->" else t!"." := by
+  unfold memberOp; cases n <;> simp
+
+theorem observe_fragSpec (b : Backend) (c : CollSpec) (bank : Text) (f : Frag) (k : Consumer) (hc : ClassOk b c)
+    (hl : f.lines = expectedLines b (expectedTy b (declOf c)) (cppLit bank) f.tok f.var)
+    (hd : f.decl = expectedDecl (expectedTy b (declOf c)) f.var) (hr : f.rep = repOf c f.var) :
+    FragSpec b (declOf c) bank (f.observe k) := by
+  have hE : (declOf c).element = c.element := rfl
+  have hP : (declOf c).elemPtr = (c.element.isSome && c.depthElem != 0) := rfl
+  generalize declOf c = d at *
+  unfold FragSpec Frag.observe
+  rw [hr, hE]
+  unfold repOf
+  cases he : c.element with
+  | none =>
+    simp only []
+    refine ⟨hl, by rw [hd], trivial, trivial, ?_⟩
+    intro o ho
+    rw [List.eq_of_mem_replicate ho, hc.depthType]; rfl
+  | some e =>
+    simp only []
+    refine ⟨hl, by rw [hd], ?_, ?_, trivial⟩
+    · intro x hx
+      rw [List.eq_of_mem_replicate hx, hc.depthType]; rfl
+    · intro o ho
+      rw [List.eq_of_mem_replicate ho, memberOp_eq, hP, he]
+      simp
+
+/-- the block and the state after one call, whatever the backend -/
+theorem frag_any (b : Backend) (c : CollSpec) (bank : Text) (n : Nat) (st : GenState) (hc : ClassOk b c)
+    (hclean : hasWord paramName c.container = false) :
+    let r := processNode (mkCV b.coder c bank n) st
+    r.1.lines = expectedLines b (expectedTy b (declOf c)) (cppLit bank) r.1.tok r.1.var ∧
+    r.1.decl = expectedDecl (expectedTy b (declOf c)) r.1.var ∧
+    r.1.rep = repOf c r.1.var ∧ r.1.var = uniqueName (lowerText c.name) st.counter ∧ r.2.counter = st.counter + 1 ∧
+    (match b with
+     | .cmsMiniaod => r.1.tok = tokenName n ∧
+        r.2.classDecls = st.classDecls ++ [expectedTokenDecl (declOf c) (tokenName n)] ∧
+        r.2.book = st.book ++ [expectedTokenInit (declOf c) (cppLit bank) (tokenName n)]
+     | _ => r.1.tok = [] ∧ r.2.classDecls = st.classDecls ∧ r.2.book = st.book) := by
+  cases b with
+  | atlas =>
+    obtain ⟨h1, h2, h3⟩ := frag_atlas c bank n st hc hclean
+    exact ⟨h1, h2, rfl, rfl, rfl, h3, by simp [processNode, mkCV, Backend.coder, Gen.atlasCoder], by simp [processNode, mkCV, Backend.coder, Gen.atlasCoder]⟩
+  | cmsAod =>
+    obtain ⟨h1, h2, h3⟩ := frag_cmsAod c bank n st hc hclean
+    exact ⟨h1, h2, rfl, rfl, rfl, h3, by simp [processNode, mkCV, Backend.coder, Gen.cmsAodCoder], by simp [processNode, mkCV, Backend.coder, Gen.cmsAodCoder]⟩
+  | cmsMiniaod =>
+    obtain ⟨h1, h2, h3, h4, h5⟩ := frag_cmsMiniaod c bank n st hc hclean
+    exact ⟨h1, h2, rfl, rfl, rfl, h3, h4, h5⟩
+
+
+/-! ## the whole job -/
+
+/-- the collections the calls mean, read off the model's table -/
+def dsOf (table : List CollSpec) : List Use → List (Decl × Text)
+  | [] => []
+  | u :: us =>
+    match lookup table u.name with
+    | some c => (declOf c, bankOf u.args) :: dsOf table us
+    | none => dsOf table us
+
+theorem lookup_name {l : List CollSpec} {n : Text} {c : CollSpec} (h : lookup l n = some c) : c.name = n := by
+  induction l with
+  | nil => simp [lookup] at h
+  | cons x l ih =>
+    unfold lookup at h
+    cases hl : lookup l n with
+    | some c' => rw [hl] at h; simp only [Option.some.injEq] at h; subst h; exact ih hl
+    | none =>
+      rw [hl] at h
+      by_cases hx : x.name = n
+      · simp only [hx, if_true, Option.some.injEq] at h; subst h; exact hx
+      · simp [hx] at h
+
+theorem observeFrags_cons (f : Frag) (fs : List Frag) (ks : List Consumer) :
+    observeFrags (f :: fs) ks = f.observe (ks.headD ⟨0, 0, 0⟩) :: observeFrags fs ks.tail := by
+  cases ks <;> rfl
+
+theorem observe_var (f : Frag) (k : Consumer) : (f.observe k).var = f.var ∧ (f.observe k).tok = f.tok := by
+  unfold Frag.observe; cases f.rep <;> exact ⟨rfl, rfl⟩
+
+theorem observeFrags_map (fs : List Frag) : ∀ ks, (observeFrags fs ks).map (·.var) = fs.map (·.var) ∧
+    (observeFrags fs ks).map (·.tok) = fs.map (·.tok) := by
+  induction fs with
+  | nil => intro ks; exact ⟨rfl, rfl⟩
+  | cons f fs ih =>
+    intro ks
+    rw [observeFrags_cons]
+    simp only [List.map_cons, (observe_var f _).1, (observe_var f _).2, (ih ks.tail).1, (ih ks.tail).2, and_self]
+
+theorem zip_observe_map {γ : Type} (g : Decl × Text → Text → γ) (ds : List (Decl × Text)) (fs : List Frag) : ∀ ks,
+    (ds.zip (observeFrags fs ks)).map (fun p => g p.1 p.2.tok) = (ds.zip fs).map (fun p => g p.1 p.2.tok) := by
+  induction fs generalizing ds with
+  | nil => intro ks; simp [observeFrags]
+  | cons f fs ih =>
+    intro ks
+    rw [observeFrags_cons]
+    cases ds with
+    | nil => rfl
+    | cons d ds => simp only [List.zip_cons_cons, List.map_cons, (observe_var f _).2, ih ds ks.tail]
+
+/-- the token half of the job, per backend -/
+def TokPart (b : Backend) (n : Nat) (st : GenState) (r : List Frag × GenState) (ds : List (Decl × Text)) : Prop :=
+  match b with
+  | .cmsMiniaod =>
+    (∀ f ∈ r.1, ∃ k, n ≤ k ∧ f.tok = tokenName k) ∧ (r.1.map (·.tok)).Nodup ∧
+    r.2.classDecls = st.classDecls ++ (ds.zip r.1).map (fun p => expectedTokenDecl p.1.1 p.2.tok) ∧
+    r.2.book = st.book ++ (ds.zip r.1).map (fun p => expectedTokenInit p.1.1 (cppLit p.1.2) p.2.tok)
+  | _ => (∀ f ∈ r.1, f.tok = []) ∧ r.2.classDecls = st.classDecls ∧ r.2.book = st.book
+
+theorem tokStep_miniaod : tokStep (Backend.coder .cmsMiniaod) = 1 := by decide
+
+theorem emit_spec (b : Backend) (table : List CollSpec) (hcl : ∀ c ∈ table, ClassOk b c) (uses : List Use) :
+    ∀ (n : Nat) (st : GenState) (ks : List Consumer),
+    (∀ u ∈ uses, UseOk table u) → (∀ p ∈ dsOf table uses, TypeClean p.1) → (∀ u ∈ uses, NameClean u.name) →
+    let r := emitAll (cvsOf b.coder table uses n) st
+    let ds := dsOf table uses
+    r.1.length = ds.length ∧
+    (∀ p ∈ ds.zip (observeFrags r.1 ks), FragSpec b p.1.1 p.1.2 p.2) ∧
+    (∀ f ∈ r.1, ∃ name k, NameClean name ∧ st.counter ≤ k ∧ f.var = uniqueName (lowerText name) k) ∧
+    (r.1.map (·.var)).Nodup ∧
+    TokPart b n st r ds := by
+  induction uses with
+  | nil =>
+    intro n st ks _ _ _
+    refine ⟨rfl, by simp [dsOf, cvsOf, emitAll, observeFrags], by simp [cvsOf, emitAll], by simp [cvsOf, emitAll], ?_⟩
+    cases b <;> simp [TokPart, cvsOf, emitAll, dsOf]
+  | cons u us ih =>
+    intro n st ks hok hclean hnames
+    obtain ⟨⟨s, hs⟩, hl⟩ := hok u (by simp)
+    cases hlk : lookup table u.name with
+    | none => simp [hlk] at hl
+    | some c =>
+      have hcmem : c ∈ table := by
+        clear ih hok hclean hnames hl
+        induction table with
+        | nil => simp [lookup] at hlk
+        | cons x l ihl =>
+          unfold lookup at hlk
+          cases hl2 : lookup l u.name with
+          | some c' =>
+            rw [hl2] at hlk; simp only [Option.some.injEq] at hlk; subst hlk
+            exact List.mem_cons_of_mem _ (ihl (fun c hc => hcl c (List.mem_cons_of_mem _ hc)) hl2)
+          | none =>
+            rw [hl2] at hlk
+            by_cases hx : x.name = u.name
+            · simp only [hx, if_true, Option.some.injEq] at hlk; subst hlk; simp
+            · simp [hx] at hlk
+      have hc := hcl c hcmem
+      have hds : dsOf table (u :: us) = (declOf c, s) :: dsOf table us := by simp [dsOf, hlk, hs, bankOf]
+      have hcv : cvsOf b.coder table (u :: us) n = (mkCV b.coder c s n, u.skip) :: cvsOf b.coder table us (n + tokStep b.coder) := by
+        simp [cvsOf, hlk, hs, bankOf]
+      have hcl0 : hasWord paramName c.container = false := by
+        have := hclean (declOf c, s) (by rw [hds]; simp)
+        exact this
+      simp only [hds, hcv, emitAll]
+      generalize hst0 : ({ st with counter := st.counter + u.skip } : GenState) = st0
+      have hst0c : st0.counter = st.counter + u.skip := by rw [← hst0]
+      have hst0d : st0.classDecls = st.classDecls ∧ st0.book = st.book := by rw [← hst0]; exact ⟨rfl, rfl⟩
+      obtain ⟨f1, f2, f3, f4, f5, f6⟩ := frag_any b c s n st0 hc hcl0
+      generalize hr0 : processNode (mkCV b.coder c s n) st0 = r0 at f1 f2 f3 f4 f5 f6
+      obtain ⟨i1, i2, i3, i4, i5⟩ := ih (n + tokStep b.coder) r0.2 ks.tail (fun x hx => hok x (by simp [hx]))
+        (fun p hp => hclean p (by rw [hds]; simp [hp])) (fun x hx => hnames x (by simp [hx]))
+      generalize hrs : emitAll (cvsOf b.coder table us (n + tokStep b.coder)) r0.2 = rs at i1 i2 i3 i4 i5
+      have hname : c.name = u.name := lookup_name hlk
+      have hnc : NameClean c.name := by rw [hname]; exact hnames u (by simp)
+      refine ⟨by simp [i1], ?_, ?_, ?_, ?_⟩
+      · intro p hp
+        rw [observeFrags_cons, List.zip_cons_cons, List.mem_cons] at hp
+        rcases hp with rfl | hp
+        · exact observe_fragSpec b c s r0.1 _ hc f1 f2 f3
+        · exact i2 p hp
+      · intro f hf
+        rcases List.mem_cons.1 hf with rfl | hf
+        · exact ⟨c.name, st0.counter, hnc, by omega, f4⟩
+        · obtain ⟨nm, k, h1, h2, h3⟩ := i3 f hf
+          exact ⟨nm, k, h1, by omega, h3⟩
+      · simp only [List.map_cons, List.nodup_cons]
+        refine ⟨?_, i4⟩
+        intro hmem
+        obtain ⟨f, hf, hfv⟩ := List.mem_map.1 hmem
+        obtain ⟨nm, k, h1, h2, h3⟩ := i3 f hf
+        rw [f4, h3] at hfv
+        have := uniqueName_inj h1 hnc hfv
+        omega
+      · cases b with
+        | cmsMiniaod =>
+          simp only [TokPart] at f6 i5 ⊢
+          rw [tokStep_miniaod] at i5
+          obtain ⟨t1, t2, t3⟩ := f6
+          obtain ⟨j1, j2, j3, j4⟩ := i5
+          refine ⟨?_, ?_, ?_, ?_⟩
+          · intro f hf
+            rcases List.mem_cons.1 hf with rfl | hf
+            · exact ⟨n, Nat.le_refl _, t1⟩
+            · obtain ⟨k, hk, hk2⟩ := j1 f hf
+              exact ⟨k, by omega, hk2⟩
+          · simp only [List.map_cons, List.nodup_cons]
+            refine ⟨?_, j2⟩
+            intro hmem
+            obtain ⟨f, hf, hfv⟩ := List.mem_map.1 hmem
+            obtain ⟨k, hk, hk2⟩ := j1 f hf
+            rw [t1, hk2] at hfv
+            have := tokenName_injective hfv
+            omega
+          · rw [j3, t2, hst0d.1, List.zip_cons_cons, List.map_cons, t1]; simp
+          · rw [j4, t3, hst0d.2, List.zip_cons_cons, List.map_cons, t1]; simp
+        | atlas =>
+          simp only [TokPart] at f6 i5 ⊢
+          obtain ⟨t1, t2, t3⟩ := f6
+          obtain ⟨j1, j2, j3⟩ := i5
+          refine ⟨?_, by rw [j2, t2, hst0d.1], by rw [j3, t3, hst0d.2]⟩
+          intro f hf
+          rcases List.mem_cons.1 hf with rfl | hf
+          · exact t1
+          · exact j1 f hf
+        | cmsAod =>
+          simp only [TokPart] at f6 i5 ⊢
+          obtain ⟨t1, t2, t3⟩ := f6
+          obtain ⟨j1, j2, j3⟩ := i5
+          refine ⟨?_, by rw [j2, t2, hst0d.1], by rw [j3, t3, hst0d.2]⟩
+          intro f hf
+          rcases List.mem_cons.1 hf with rfl | hf
+          · exact t1
+          · exact j1 f hf
+
+theorem resolve_eq {b : Backend} {mds : List Md} {table : List CollSpec}
+    (ht : table.map declOf = builtinDecls b ++ mds.map (intended b)) (n : Text) :
+    resolve b mds n = (lookup table n).map declOf := by
+  unfold resolve; rw [← ht, lookupDecl_map]
+
+theorem resolveAll_eq {b : Backend} {mds : List Md} {table : List CollSpec}
+    (ht : table.map declOf = builtinDecls b ++ mds.map (intended b)) (uses : List Use) :
+    resolveAll b mds uses = dsOf table uses := by
+  induction uses with
+  | nil => rfl
+  | cons u us ih =>
+    simp only [resolveAll, dsOf, resolve_eq ht, ih]
+    cases lookup table u.name <;> rfl
+
+theorem cvsOf_flat (cd : CoderInfo) (table : List CollSpec) (uses : List Use) : ∀ n,
+    (cvsOf cd table uses n).flatMap (·.1.spec.includes) = (dsOf table uses).flatMap (·.1.includes) ∧
+    (cvsOf cd table uses n).flatMap (·.1.spec.libraries) = (dsOf table uses).flatMap (·.1.libraries) := by
+  induction uses with
+  | nil => intro n; exact ⟨rfl, rfl⟩
+  | cons u us ih =>
+    intro n
+    simp only [cvsOf, dsOf]
+    cases lookup table u.name with
+    | none => exact ih n
+    | some c =>
+      simp only [List.flatMap_cons, (ih _).1, (ih _).2]
+      exact ⟨rfl, rfl⟩
+
+theorem sameLines_refl (a : List Text) : SameLines a a := fun _ _ => rfl
+
+
+theorem stripPrefix?_append (p r : Text) : stripPrefix? p (p ++ r) = some r := by
+  simp [stripPrefix?]
+
+theorem stripSuffix?_append (r s : Text) : stripSuffix? s (r ++ s) = some r := by
+  have h : s.isSuffixOf (r ++ s) = true := List.isSuffixOf_iff_suffix.2 (List.suffix_append r s)
+  simp [stripSuffix?, h]
+
+/-- everything `runJob` does, related to the property -/
+theorem runJob_spec (b : Backend) (mds : List Md) (uses : List Use) (c0 gap : Nat) (ks : List Consumer)
+    (hwt : ∀ md ∈ mds, md.WellTyped) (hkind : ∀ md ∈ mds, KindDefault b md) (hcms : ∀ md ∈ mds, CmsIsCollection b md)
+    (hclean : ∀ p ∈ resolveAll b mds uses, TypeClean p.1) (hnames : ∀ u ∈ uses, NameClean u.name) :
+    RunSpec b mds uses (outcomeOf (runJob b mds uses c0 gap) ks) := by
+  cases hr : runJob b mds uses c0 gap with
+  | ok out =>
+    unfold runJob at hr
+    cases hd : declare b mds with
+    | error e => simp [hd] at hr
+    | ok table =>
+      cases hf : findAll b.coder table uses c0 with
+      | error e => simp [hd, hf] at hr
+      | ok p =>
+        obtain ⟨cvs, n⟩ := p
+        simp only [hd, hf, Except.ok.injEq] at hr
+        obtain ⟨d1, d2, d3⟩ := declare_sound hd
+        have ht := d3 hkind
+        obtain ⟨u1, u2⟩ := findAll_ok hf
+        have u2' : cvs = cvsOf b.coder table uses c0 := u2
+        subst u2'
+        have hres := resolveAll_eq ht uses
+        have hacc : Acceptable b mds uses := by
+          refine ⟨d1, fun u hu => ⟨(u1 u hu).1, ?_⟩⟩
+          rw [resolve_eq ht]
+          have := (u1 u hu).2
+          cases hl : lookup table u.name with
+          | none => simp [hl] at this
+          | some c => rfl
+        refine ⟨hacc, ?_⟩
+        show JobSpec b (resolveAll b mds uses) (out.observe ks)
+        rw [hres]
+        rw [hres] at hclean
+        generalize hst : ({ counter := n + gap, includes := [], libs := [], classDecls := [], book := [] } : GenState) = st at hr
+        obtain ⟨e1, e2, e3, e4, e5⟩ := emit_spec b table d2 uses c0 st ks u1 hclean hnames
+        obtain ⟨g1, g2⟩ := emitAll_includes (cvsOf b.coder table uses c0) st
+        generalize hrr : emitAll (cvsOf b.coder table uses c0) st = r at hr e1 e2 e3 e4 e5 g1 g2
+        subst hr
+        have hm := observeFrags_map r.1 ks
+        have hlen : (observeFrags r.1 ks).length = r.1.length := by
+          have := congrArg List.length hm.1
+          simpa using this
+        refine ⟨by simp only [JobOut.observe]; rw [hlen, e1], e2, by simp only [JobOut.observe]; rw [hm.1]; exact e4, ?_, ?_, ?_⟩
+        · cases b with
+          | cmsMiniaod =>
+            simp only [TokPart] at e5
+            obtain ⟨t1, t2, t3, t4⟩ := e5
+            simp only [TokenSpec, JobOut.observe]
+            refine ⟨by rw [hm.2]; exact t2, ?_, ?_⟩
+            · rw [zip_observe_map (fun p t => expectedTokenDecl p.1 t), t3, ← hst]
+              exact sameLines_refl _
+            · rw [zip_observe_map (fun p t => expectedTokenInit p.1 (cppLit p.2) t), t4, ← hst]
+              exact sameLines_refl _
+          | atlas =>
+            simp only [TokPart] at e5
+            obtain ⟨t1, t2, t3⟩ := e5
+            simp only [TokenSpec, JobOut.observe]
+            refine ⟨by rw [t2, ← hst], by rw [t3, ← hst], ?_⟩
+            intro f hf
+            have : f.tok ∈ (observeFrags r.1 ks).map (·.tok) := List.mem_map_of_mem hf
+            rw [hm.2] at this
+            obtain ⟨f', hf', e⟩ := List.mem_map.1 this
+            rw [← e]; exact t1 f' hf'
+          | cmsAod =>
+            simp only [TokPart] at e5
+            obtain ⟨t1, t2, t3⟩ := e5
+            simp only [TokenSpec, JobOut.observe]
+            refine ⟨by rw [t2, ← hst], by rw [t3, ← hst], ?_⟩
+            intro f hf
+            have : f.tok ∈ (observeFrags r.1 ks).map (·.tok) := List.mem_map_of_mem hf
+            rw [hm.2] at this
+            obtain ⟨f', hf', e⟩ := List.mem_map.1 this
+            rw [← e]; exact t1 f' hf'
+        · simp only [JobOut.observe]
+          rw [g1, (cvsOf_flat b.coder table uses c0).1, ← hst]
+          exact addAll_nil_dedup _
+        · simp only [JobOut.observe]
+          rw [g2, (cvsOf_flat b.coder table uses c0).2, ← hst]
+          exact addAll_nil_dedup _
+  | error e =>
+    simp only [outcomeOf, RunSpec]
+    intro hacc
+    obtain ⟨table, hd⟩ := declare_complete hacc.1 hwt hcms
+    obtain ⟨_, _, d3⟩ := declare_sound hd
+    have ht := d3 hkind
+    have huse : ∀ u ∈ uses, UseOk table u := by
+      intro u hu
+      refine ⟨(hacc.2 u hu).1, ?_⟩
+      have := (hacc.2 u hu).2
+      rw [resolve_eq ht] at this
+      cases hl : lookup table u.name with
+      | none => simp [hl] at this
+      | some c => rfl
+    obtain ⟨r, hf⟩ := findAll_of (cd := b.coder) c0 huse
+    simp [runJob, hd, hf] at hr
 
 end FaxVerif.C06
